@@ -320,6 +320,7 @@ int hx_supervise(int argc, char **argv, hx_worker_fn fn) {
         install_handlers();
         int rc = fn(argc, argv);
         fwrite(out_buf.p, 1, out_buf.n, stdout); fflush(stdout);
+        hx_extract_cleanup();
         return rc;
     }
     sh = mmap(NULL, sizeof(hx_shared), PROT_READ | PROT_WRITE, MAP_SHARED | MAP_ANONYMOUS, -1, 0);
@@ -341,6 +342,7 @@ int hx_supervise(int argc, char **argv, hx_worker_fn fn) {
             install_handlers();
             int rc = fn(argc, argv);
             fwrite(out_buf.p, 1, out_buf.n, stdout); fflush(stdout);
+            hx_extract_cleanup();
 #ifdef HX_FLAVOUR_cov
             { extern void __gcov_dump(void); __gcov_dump(); }       /* coverage flavour: flush the counters of this worker */
 #endif
